@@ -29,6 +29,18 @@ Export2(id, rule, rule2, data, exp, sc, fl) ==
   ExportLine(ToJson([id |-> id, rule |-> rule, rule2 |-> rule2, data |-> data,
                      exp |-> [ok |-> exp.ok, v |-> exp.v, log |-> exp.log], sc |-> sc, fl |-> fl]) \o "\n")
 
+\* results of the public js_op helpers: a double as a float-spelled number, or "NaN"/"Infinity"/"-Infinity";
+\* Option::None and Result::Err as an Err outcome
+S_NaN == <<78, 97, 78>>
+FVal(f) == CASE f.k = "nan" -> Str(S_NaN)
+             [] f.k = "pinf" -> Str(S_Infinity)
+             [] f.k = "ninf" -> Str(<<45>> \o S_Infinity)
+             [] OTHER -> FloatNum(f)
+OptF(f) == IF f.k = "nan" THEN Fail(<<>>) ELSE R(TRUE, FVal(f), <<>>)
+HelperLine(id, fn, args, exp, sc) ==
+  ToJson([id |-> id, fn |-> fn, args |-> args, rule |-> Null, data |-> Null,
+          exp |-> [ok |-> exp.ok, v |-> exp.v, log |-> <<>>], sc |-> sc, fl |-> NoFlags]) \o "\n"
+
 \* the 35 operator names in a fixed order
 OpSeq == <<K_eq, K_ne, K_seq, K_sne, K_not, K_notnot, K_lt, K_lte, K_gt, K_gte, K_add, K_sub, K_mul, K_div, K_mod,
            K_max, K_min, K_merge, K_in, K_cat, K_substr, K_log, K_var, K_missing, K_missing_some,
